@@ -439,7 +439,7 @@ func truncS(s string, n int) string {
 func init() {
 	fw.Register(&fw.Property{
 		ID: "C19", Level: "exploration",
-		Rule: "(1) read operations: projects of 2-6 simulated processes in mixed states (running, completed, start failure, bad dir, disabled, replicas) behind the real router (api.InitRoutes) and the bundled client; at quiescent points every client read (process state(s), info, ports, project state, host name, names, raw log range) is compared with the direct call after canonicalisation, error iff error, interleaved with state-changing requests through the client whose outcome is compared with the reference; (2) the C08 / C13 / C14 history generators re-run with every request issued through the client, same oracles; (3) hostile requests: random route x hostile path parameters x malformed bodies against a disposable runner: no 5xx, 4xx carries an error message, /live keeps answering; distinct = request/route/status pattern",
+		Rule:        "(1) read operations: projects of 2-6 simulated processes in mixed states (running, completed, start failure, bad dir, disabled, replicas) behind the real router (api.InitRoutes) and the bundled client; at quiescent points every client read (process state(s), info, ports, project state, host name, names, raw log range) is compared with the direct call after canonicalisation, error iff error, interleaved with state-changing requests through the client whose outcome is compared with the reference; (2) the C08 / C13 / C14 history generators re-run with every request issued through the client, same oracles; (3) hostile requests: random route x hostile path parameters x malformed bodies against a disposable runner: no 5xx, 4xx carries an error message, /live keeps answering; distinct = request/route/status pattern",
 		Assumptions: []string{"time-dependent fields (age, cpu, memory, uptime) are normalised", "values compared after a JSON round trip (ints become floats on the wire)", "PcClient.GetProcessLog is an explicit 'implement me' stub and is not called; the raw log route is compared instead"},
 		Gen: func(seed int64, tier string) []fw.Case {
 			var cs []fw.Case
